@@ -157,19 +157,24 @@ void Ctx::end() {
 // 3. Leak check
 // ===================================================================================
 namespace {
-__attribute__((noinline)) void scrub_stack() { volatile char buf[16384]; for (size_t i = 0; i < sizeof buf; i += 64) buf[i] = 0; buf[sizeof buf - 1] = 0; }
+// overwrite the dead part of the stack (stale copies of pointers would hide a leak from LeakSanitizer until later)
+__attribute__((noinline)) void scrub_stack() { volatile char buf[131072]; memset((void*) buf, 0, sizeof buf); buf[sizeof buf - 1] = buf[0]; }
 
 std::string report_file() { char b[32]; snprintf(b, sizeof b, ".%d", (int) getpid()); return g_base + ".rep" + b; }
-std::string slurp_and_truncate(const std::string& path) {
+// the sanitizer runtime keeps the report file open and appends: read what is new since last time
+long g_rep_off = 0;
+std::string slurp_new(const std::string& path, long* off) {
   std::string s;
   FILE* f = fopen(path.c_str(), "r");
   if (!f) return s;
+  if (off) fseek(f, *off, SEEK_SET);
   char buf[4096]; size_t n;
   while ((n = fread(buf, 1, sizeof buf, f)) > 0) s.append(buf, n);
+  if (off) *off += (long) s.size();
   fclose(f);
-  if (truncate(path.c_str(), 0) != 0) { /* ignore */ }
   return s;
 }
+std::string slurp_and_truncate(const std::string& path) { return slurp_new(path, path == report_file() ? &g_rep_off : 0); }
 // "Parma_Polyhedra_Library::CO_Tree::CO_Tree<...>(args)" -> "CO_Tree::CO_Tree<...>"
 std::string tidy_fn(std::string f) {
   const std::string ns = "Parma_Polyhedra_Library::";
@@ -216,18 +221,24 @@ std::string top_ppl_frame(const std::vector<Frame>& fr, std::string* context = 0
     if (top.empty()) top = f;
     if (context) { if (!context->empty()) *context += " < "; *context += f + " " + fr[i].loc; }
   }
-  return top.empty() ? "no-PPL-frame" : top;
+  if (!top.empty()) return top;
+  // allocation made by an external library whose frames the unwinder cannot cross (GMP has no frame pointers)
+  for (size_t i = 0; i < fr.size(); ++i) {
+    const std::string& l = fr[i].loc;
+    if (l.compare(0, 3, "lib") == 0 && l.find("asan") == std::string::npos) { size_t e = l.find_first_of(".+"); if (context) *context += fr[i].fn + " " + l; return "extern-" + l.substr(0, e); }
+  }
+  return "no-PPL-frame";
 }
 
 bool g_lsan_ok = false;
 // Returns "" if nothing leaked, else "<site>\n<details>".  Leaked blocks are then ignored.
 bool leak_check(std::string& site, std::string& detail) {
   fi::stage("leak check");
-  scrub_stack();
   hx::checked();
   hx::count("leak_checks");
   if (!__lsan_do_recoverable_leak_check()) return false;
   std::string rep = slurp_and_truncate(report_file());
+  if (hx::opt().verbose) fprintf(stderr, "%s\n", rep.c_str());
   size_t d = rep.find("leak of ");
   std::vector<Frame> fr = first_stack(rep, d == std::string::npos ? 0 : d);
   std::string ctx;
@@ -239,7 +250,8 @@ bool leak_check(std::string& site, std::string& detail) {
   size_t ign = 0;
   for (size_t i = 0; i < TSIZE; ++i) if (g_tab[i] && g_tab[i] != TOMB) { __lsan_ignore_object(g_tab[i]); ++ign; }
   scrub_stack();
-  if (g_tab_overflow || __lsan_do_recoverable_leak_check()) { slurp_and_truncate(report_file()); detail += " [could not isolate the leaked blocks: the case stops here]"; site += ""; hx::count("leak.not_isolated"); return true; }
+  if (hx::opt().verbose) fprintf(stderr, "ignored %zu live blocks (table used %zu, overflow %d)\n", ign, g_tab_used, (int) g_tab_overflow);
+  if (g_tab_overflow || __lsan_do_recoverable_leak_check()) { std::string rep2 = slurp_and_truncate(report_file()); if (hx::opt().verbose) fprintf(stderr, "SECOND: %s\n", rep2.c_str()); detail += " [could not isolate the leaked blocks: the case stops here]"; site += ""; hx::count("leak.not_isolated"); return true; }
   hx::count("leak.isolated");
   return true;
 }
@@ -297,7 +309,7 @@ bool invoke(const fi::Scen& sc, hx::Rng saved, Ctx& c, bool& leaked_key_seen, st
   c.scen = sc.name;
   if (g_sh) { strncpy(g_sh->scen, sc.name, sizeof g_sh->scen - 1); strncpy(g_sh->mode, fi::mode_name(c.mode), sizeof g_sh->mode - 1); g_sh->k = c.mode == fi::WEIGHT ? (long) c.wthreshold : c.k; ++g_sh->injections; }
   fi::stage("build arguments");
-  track_reset(); g_track = true;
+  g_track = true;      // the table of live blocks accumulates over the whole case (reset in case_body)
   try { sc.fn(c); }
   catch (const std::exception& e) {
     g_track = false; fi::disarm_alloc(); abandon_expensive_computations = 0;
@@ -316,6 +328,7 @@ bool invoke(const fi::Scen& sc, hx::Rng saved, Ctx& c, bool& leaked_key_seen, st
   }
   // leaks?
   std::string site, detail;
+  scrub_stack();
   if (leak_check(site, detail)) {
     std::string key = injected ? "C14.leak." + std::string(sc.name) + ":" + site : "harness.bug.faultinj.nofault." + std::string(sc.name) + ".leak:" + site;
     if (leak_keys.insert(key).second) hx::violation(key, c.where() + " exception=" + (c.threw ? c.exc : "none") + " :: " + detail);
@@ -422,7 +435,7 @@ void reject_case() {
     std::string nm = r.dom + "." + r.op + "." + r.cls;
     if (g_sh) { strncpy(g_sh->scen, nm.c_str(), sizeof g_sh->scen - 1); strncpy(g_sh->mode, "reject", sizeof g_sh->mode - 1); g_sh->k = 0; }
     trace_line("reject " + nm + "; ");
-    track_reset(); g_track = true;
+    g_track = true;
     try { R.fn(r); }
     catch (const std::exception& e) { g_track = false; hx::violation("harness.bug.faultinj.reject_threw." + nm, fi::exc_class(e) + std::string(": ") + e.what()); return; }
     g_track = false;
@@ -431,11 +444,13 @@ void reject_case() {
     hx::count("rejects");
     if (!r.failed) hx::distinct("reject|" + nm);
     std::string site, detail;
+    scrub_stack();
     if (leak_check(site, detail)) { hx::violation("C14.leak.reject." + nm + ":" + site, detail); return; }
   }
 }
 
 void case_body() {
+  track_reset(); g_rep_off = g_in_child ? 0 : g_rep_off;
   std::string kind = hx::opt().gets("kind", "");
   std::string prof = hx::opt().profile;
   if (kind.empty()) {
